@@ -9,6 +9,7 @@ BASE_STUBS_EXT = [
     "std::rc::Rc::drop_slow",
 ]
 BASE_STUBS_CANDID = [
+    "crate::types::type_env::TypeEnv::trace_type_with_depth",
     "alloc::fmt::format",
     "crate::Error::msg",
     "stacker::remaining_stack",
@@ -52,22 +53,46 @@ def add(*a, **k):
 
 # ---------------------------------------------------------------------------
 # C09
-add("C09", "c09_dec_nat128_le20", "ext", "c09_leb128",
-    "all byte strings of length 0..=20 (2^160 strings, symbolic length); unwind 22",
-    "leb128::decode_nat: no panic/overflow; unterminated => Err; value >= 2^128 => Err; otherwise Ok(mathematical value) "
-    "and exactly the string's bytes consumed (oracle: explicit wide arithmetic written from the spec)", est_s=60)
-add("C09", "c09_dec_int128_le20", "ext", "c09_leb128",
-    "all byte strings of length 0..=20, symbolic length; unwind 22",
-    "leb128::decode_int: same, signed (two's complement of 7n bits), range is i128", est_s=300)
-add("C09", "c09_dec_nat128_le24", "ext", "c09_leb128",
-    "all byte strings of length 0..=24 (padded encodings up to 5 bytes beyond the 19-byte maximum)",
-    "as c09_dec_nat128_le20", quick=False, est_s=120)
-add("C09", "c09_dec_int128_le24", "ext", "c09_leb128",
-    "all byte strings of length 0..=24", "as c09_dec_int128_le20", quick=False, est_s=1200, cap_s=5400)
+DEC_WHAT_NAT = ("leb128::decode_nat: no panic/overflow; unterminated => Err; value >= 2^128 => Err; otherwise "
+                "Ok(mathematical value) and exactly the string's bytes consumed (oracle: explicit wide arithmetic from the spec)")
+DEC_WHAT_INT = "leb128::decode_int: same, signed (two's complement of 7n bits), range is i128"
+for n, q, est in ((20, True, 30), (28, False, 60), (40, False, 200)):
+    b = (f"all 2^{8*n} buffers of {n} bytes = every string whose first terminator lies within {n} bytes (minimal and "
+         f"padded) plus the unterminated ones of length {n}; unwind {n+2}")
+    add("C09", f"c09_dec_nat128_eq{n}", "ext", "c09_leb128", b, DEC_WHAT_NAT, quick=q, est_s=est)
+    add("C09", f"c09_dec_int128_eq{n}", "ext", "c09_leb128", b, DEC_WHAT_INT, quick=q, est_s=est)
+add("C09", "c09_dec_nat128_le6", "ext", "c09_leb128", "all byte strings of symbolic length 0..=6 (EOF at every position)",
+    DEC_WHAT_NAT, est_s=20)
+add("C09", "c09_dec_int128_le6", "ext", "c09_leb128", "all byte strings of symbolic length 0..=6 (EOF at every position)",
+    DEC_WHAT_INT, est_s=20)
+add("C09", "c09_dec_nat128_le20", "ext", "c09_leb128", "all byte strings of symbolic length 0..=20", DEC_WHAT_NAT,
+    quick=False, est_s=400, cap_s=3600)
+add("C09", "c09_dec_int128_le20", "ext", "c09_leb128", "all byte strings of symbolic length 0..=20", DEC_WHAT_INT,
+    quick=False, est_s=400, cap_s=3600)
 add("C09", "c09_enc_nat128", "ext", "c09_leb128", "all u128 values",
     "leb128::encode_nat output == reference minimal LEB128, byte for byte, length <= 19", est_s=30)
 add("C09", "c09_enc_int128", "ext", "c09_leb128", "all i128 values",
     "leb128::encode_int output == reference minimal SLEB128, byte for byte, length <= 19", est_s=30)
+
+add("C09", "c09_fast_u64_le11", "candid", "de_c09",
+    "any buffer of 0..=11 symbolic bytes, any start offset; unwind 13",
+    "Deserializer::try_read_leb_u64: Ok(Some(v)) => v is the LEB128 value and the cursor advanced by exactly the string; "
+    "Err only on unterminated input (declining is internal and not asserted)", est_s=60)
+add("C09", "c09_fast_i64_le11", "candid", "de_c09",
+    "any buffer of 0..=11 symbolic bytes, any start offset; unwind 13",
+    "Deserializer::try_read_leb_i64: same, signed", est_s=60)
+U128_WHAT = ("deserialize_u128 on constructed decoder state: Ok => wire is nat, value == LEB128 value, bytes consumed == "
+             "string; in-range nat without quota => Ok; cursor never beyond input; no panic")
+I128_WHAT = ("deserialize_i128: Ok => wire is int (SLEB128 value) or nat (LEB128 value <= i128::MAX), bytes consumed == "
+             "string; in-range without quota => Ok; no panic")
+add("C09", "c09_de_u128_eq20", "candid", "de_c09",
+    "20 symbolic value bytes x wire type over 17 primitive types x symbolic quotas", U128_WHAT, est_s=120)
+add("C09", "c09_de_i128_eq20", "candid", "de_c09",
+    "20 symbolic value bytes x wire type over 17 primitive types x symbolic quotas", I128_WHAT, est_s=120)
+add("C09", "c09_de_u128_le4", "candid", "de_c09",
+    "symbolic length 0..=4 x wire type over 17 primitive types x symbolic quotas", U128_WHAT, est_s=60)
+add("C09", "c09_de_i128_le4", "candid", "de_c09",
+    "symbolic length 0..=4 x wire type over 17 primitive types x symbolic quotas", I128_WHAT, est_s=60)
 
 OUTSIDE = {
     "C09": "LEB strings longer than the per-harness byte bound; num-bigint's own arithmetic (boundary stubbed in the "
